@@ -12,7 +12,7 @@ RULE = (
 )
 ASSUMPTIONS = ["the order of edge statements among themselves is not part of the statement and is not checked",
                "known finding dot-edge-to-stopped-child is accepted only when the surplus edges are exactly the predicted ones"]
-GATES = ["mon.C12.export", "C12.edges_checked", "C12.maxlevel0", "C12.stop_and_filter", "C12.colliding_names", "C12.hostile_names", "C12.custom", "C12.to_dotfile", "C12.rendertreegraph", "C12.predicate_change", "C12.value_semantics_nodes", "C12.attribute_reassigned", "C12.tree_changed_between_iterations", "C12.aborted_iteration_then_reuse", "C12.custom_function_returns_none", "C12.falsy_nodes"]
+GATES = ["mon.C12.export", "C12.edges_checked", "C12.maxlevel0", "C12.stop_and_filter", "C12.colliding_names", "C12.hostile_names", "C12.custom", "C12.to_dotfile", "C12.rendertreegraph", "C12.predicate_change", "C12.value_semantics_nodes", "C12.attribute_reassigned", "C12.tree_changed_between_iterations", "C12.aborted_iteration_then_reuse", "C12.custom_function_returns_none", "C12.falsy_nodes", "C12.other_exporter_numbered_subtree_before"]
 
 
 def plan(tier, seed, jobs):
